@@ -5,6 +5,12 @@
 (*  Family "gate"  : up to GateMsgs messages brought into a chosen state (composite PutX =     *)
 (*                   Put, estimates, EndBlock, Deliver/Fail -- the driver logs the atomic      *)
 (*                   steps) or really assigned, then Query.                                    *)
+(*  Family "retry" : a logic call is assigned, its relay failure is attested (AttestErrN =      *)
+(*                   validators 1..n add the error proof), the relayer pool may change (Rereg,  *)
+(*                   Resnap), the end blocker retries (EndBlockAtt); up to three rounds.        *)
+(*  Family "fees"  : multiplicators changed per chain (SetFee), a fee-paying call on each of    *)
+(*                   two queues (same or different chain, same or different assignee) fully    *)
+(*                   estimated, ONE end block electing both, Query.                             *)
 (*  Family "mix"   : simulate mode, every atomic action, random tables.                        *)
 EXTENDS RelayGate, Json
 CONSTANTS Family, EmitAt, MaxOps,
@@ -25,10 +31,10 @@ HiFee == MaxOf(FeeLevels)
 \* (a trait without the account that carries it is not a row of its own: CurOf drops it)
 Wf(r) == (r.mevH => r.home) /\ (r.mevT => r.acct # 0)
 VarRows == CASE VarMode \in {"full", "small"} ->
-                    {r \in Row : Wf(r) /\ r.acct <= 1 /\ r.fee \in {0, BaseFee, HiFee}
+                    {r \in Row : Wf(r) /\ r.acct <= 1 /\ r.fee \in {0, BaseFee, HiFee} /\ r.feeH = BaseFee
                                  /\ (~r.home => (r.perf /\ ~r.mevT /\ r.fee = BaseFee))}
              [] OTHER             -> {r \in Row : Wf(r)}
-AbsentRow == [home |-> FALSE, acct |-> 0, mevH |-> FALSE, mevT |-> FALSE, fee |-> 0, perf |-> FALSE]
+AbsentRow == [home |-> FALSE, acct |-> 0, mevH |-> FALSE, mevT |-> FALSE, fee |-> 0, feeH |-> BaseFee, perf |-> FALSE]
 BgRows == {AbsentRow, BaseRow, [BaseRow EXCEPT !.mevH = TRUE, !.mevT = TRUE, !.fee = HiFee]}
           \cup (IF VarMode = "full" THEN {[BaseRow EXCEPT !.mevH = TRUE], [BaseRow EXCEPT !.mevT = TRUE, !.fee = HiFee]} ELSE {})
 VarPairs == IF VarMode = "full" THEN {<<1, 2>>, <<2, N>>} ELSE {<<1, 2>>}
@@ -66,40 +72,107 @@ GAssign(C, S, M, Ts) == \E c \in C, s \in S, mv \in M, t \in Ts :
   Assign(c, s, mv, t) /\ H("Assign", [c |-> c, s |-> s, mev |-> mv, t |-> t])
 
 \* ---- queue ------------------------------------------------------------------------------------
-GPut(A) == \E k \in Kinds : \E s \in (IF k = "slc" THEN Senders ELSE {0}) : \E a \in A, ne \in BOOLEAN :
-  Put(k, s, a, ne) /\ H("Put", [kind |-> k, s |-> s, a |-> a, ne |-> ne])
+GPut(C, A) == \E c \in C, k \in Kinds : \E s \in (IF k = "slc" THEN Senders ELSE {0}) : \E a \in A, ne \in BOOLEAN :
+  /\ (c = "h" => k = "slc")
+  /\ Put(c, k, s, a, ne) /\ H("Put", [c |-> c, kind |-> k, s |-> s, a |-> a, ne |-> ne])
 
 RECURSIVE EstimateManyQ(_, _, _, _)
 EstimateManyQ(Q, n, id, g) == IF n = 0 THEN Q
                               ELSE EstimateManyQ(IF EstimateOK(Q, n, id) THEN EstimateQ(Q, n, id, g) ELSE Q, n - 1, id, g)
 \* validators 1..n submit g for message id (atomic Estimate steps in the trace)
 GEstimateN == \E id \in 1..nextId, g \in Gases, n \in {EstN - 1, EstN} :
-  /\ queue' = EstimateManyQ(queue, n, id, g) /\ res' = "ok"
-  /\ UNCHANGED <<tabs, nextId, nrows, queueH>>
+  /\ queue' = EstimateManyQ(queue, n, id, g) /\ queueH' = EstimateManyQ(queueH, n, id, g) /\ res' = "ok"
+  /\ UNCHANGED <<tabs, nextId, nrows>>
   /\ H("EstimateN", [id |-> id, g |-> g, n |-> n])
 GEndBlock == \E w \in 1..3 : EndBlock /\ H("EndBlock", [w |-> w])
 GDeliver == \E id \in 1..nextId : Deliver(id) /\ H("Deliver", [id |-> id])
 GFail == \E id \in 1..nextId : Fail(id) /\ H("Fail", [id |-> id])
 GQuery == \E w \in 1..3 : Query /\ H("Query", [w |-> w])
 GQuery1 == \E w \in {1} : Query /\ H("Query", [w |-> w])
+GSetFee(V, F) == \E v \in V, c \in Chains, f \in F :
+  /\ f # FeeTab(c)[v]
+  /\ SetFee(v, c, f) /\ H("SetFee", [v |-> v, c |-> c, f |-> f])
+\* validators 1..n attest the execution-error proof for message id (atomic AttestErr steps in the trace)
+RECURSIVE AttestManyQ(_, _, _)
+AttestManyQ(Q, n, id) == IF n = 0 THEN Q ELSE AttestManyQ(AttestQ(Q, n, id), n - 1, id)
+GAttestN(I, Ns) == \E id \in I, n \in Ns :
+  /\ queue' = AttestManyQ(queue, n, id) /\ queueH' = AttestManyQ(queueH, n, id)
+  /\ res' = IF id \in Ids(queue \cup queueH) THEN "ok" ELSE "fail"
+  /\ UNCHANGED <<tabs, nextId, nrows>>
+  /\ H("AttestErrN", [id |-> id, n |-> n])
+GEndBlockAtt(Ts) == \E t \in Ts : EndBlockAtt(t) /\ H("EndBlockAtt", [t |-> t])
 
-\* composite: put a message and bring it into a state
-PutXQ(kind, s, a, stage, proc, g) ==
+\* composite: put a message on the queue of chain c and bring it into a state ("ready" = estimated by a quorum, not
+\* yet elected; "elected" runs the end block, which elects whatever is ready on BOTH queues)
+PutXSt(c, kind, s, a, stage, proc, g) ==
   LET id == nextId
-      q1 == queue \cup {Msg(id, kind, s, a, 1, stage # "noneed")}
-      q2 == CASE stage = "sub"     -> EstimateManyQ(q1, EstN - 1, id, g)
-               [] stage = "elected" -> ElectAllT(snap, fee, EstimateManyQ(q1, EstN, id, g))
-               [] OTHER             -> q1
-      q3 == CASE proc = "pad" -> DeliverQ(q2, id)
-               [] proc = "err" -> FailQ(q2, id)
-               [] OTHER        -> q2
-  IN q3
-GPutX(A) == \E k \in Kinds : \E s \in (IF k = "slc" THEN Senders ELSE {0}) :
-            \E a \in A, stage \in GenStage, proc \in GenProc, g \in Gases :
-  /\ ((stage \notin {"sub", "elected"} \/ Family = "mix" \/ GateMsgs > 2) => g = MinOf(Gases))
-  /\ queue' = PutXQ(k, s, a, stage, proc, g) /\ nextId' = nextId + 1 /\ res' = "put"
-  /\ UNCHANGED <<tabs, nrows, queueH>>
-  /\ H("PutX", [kind |-> k, s |-> s, a |-> a, stage |-> stage, proc |-> proc, g |-> g, n |-> EstN])
+      m == Msg(id, kind, s, a, 1, stage # "noneed")
+      t1 == IF c = "t" THEN queue \cup {m} ELSE queue
+      h1 == IF c = "h" THEN queueH \cup {m} ELSE queueH
+      n == CASE stage = "sub" -> EstN - 1 [] stage \in {"ready", "elected"} -> EstN [] OTHER -> 0
+      t2 == EstimateManyQ(t1, n, id, g)
+      h2 == EstimateManyQ(h1, n, id, g)
+      t3 == IF stage = "elected" THEN ElectAllT(snap, fee, t2) ELSE t2
+      h3 == IF stage = "elected" THEN ElectAllT(snap, feeH, h2) ELSE h2
+      t4 == CASE proc = "pad" -> DeliverQ(t3, id)
+               [] proc = "err" -> FailQ(t3, id)
+               [] OTHER        -> t3
+  IN [qt |-> t4, qh |-> h3]
+GPutX(C, A, St, Pr, Gs) == \E c \in C, k \in Kinds : \E s \in (IF k = "slc" THEN Senders ELSE {0}) :
+            \E a \in A, stage \in St, proc \in Pr, g \in Gs :
+  /\ (c = "h" => (k = "slc" /\ proc = "none"))
+  /\ ((stage \notin {"sub", "ready", "elected"} \/ Family = "mix" \/ GateMsgs > 2) => g = MinOf(Gases))
+  /\ LET r == PutXSt(c, k, s, a, stage, proc, g) IN queue' = r.qt /\ queueH' = r.qh
+  /\ nextId' = nextId + 1 /\ res' = "put"
+  /\ UNCHANGED <<tabs, nrows>>
+  /\ H("PutX", [c |-> c, kind |-> k, s |-> s, a |-> a, stage |-> stage, proc |-> proc, g |-> g, n |-> EstN])
+
+\* ---- family "retry" -----------------------------------------------------------------------------
+MevT == [BaseRow EXCEPT !.mevT = TRUE]
+MevH == [BaseRow EXCEPT !.mevH = TRUE]
+GSetupRetry ==
+  \E r1 \in {MevT, MevH, [BaseRow EXCEPT !.mevH = TRUE, !.mevT = TRUE, !.fee = HiFee]},
+     r2 \in {BaseRow, [MevT EXCEPT !.fee = HiFee], MevH, AbsentRow}, bg \in {BaseRow, AbsentRow} :
+    LET T == [v \in Vals |-> IF v = 1 THEN r1 ELSE IF v = 2 THEN r2 ELSE bg] IN
+    Setup(T) /\ H("Setup", [rows |-> RowsSeq(T)])
+\* the relayer pool changes between the failure report and the retry: validator 1 loses its traits, moves them to its
+\* other account, or gives up its target chain account
+GReregR == \E k \in {1, 2, 3} :
+  LET c == cur[1]
+      n == CASE k = 1 -> [acct |-> c.acct, mh |-> FALSE, mt |-> FALSE]
+             [] k = 2 -> [acct |-> c.acct, mh |-> c.mevT, mt |-> c.mevH]
+             [] OTHER -> [acct |-> 0, mh |-> c.mevH, mt |-> FALSE] IN
+  /\ (n.acct # c.acct \/ n.mh # c.mevH \/ n.mt # c.mevT)
+  /\ Rereg(1, n.acct, n.mh, n.mt) /\ H("Rereg", [v |-> 1, acct |-> n.acct, mevH |-> n.mh, mevT |-> n.mt])
+LastMsg == {nextId - 1}
+GNextRetry ==
+  IF hist = <<>> THEN GSetupRetry
+  ELSE CASE Last.act = "Query" -> FALSE
+         [] Last.act = "Setup" -> \E x \in {<<"t", TRUE>>, <<"h", TRUE>>, <<"t", FALSE>>} :
+                                    /\ Assign(x[1], 1, x[2], 0) /\ H("Assign", [c |-> x[1], s |-> 1, mev |-> x[2], t |-> 0])
+         [] Last.act = "Assign" -> IF res = "assigned" THEN GAttestN(LastMsg, {EstN - 1, EstN}) ELSE GQuery1
+         [] Last.act = "AttestErrN" -> (NAct("Rereg") = 0 /\ GReregR) \/ GEndBlockAtt({NAct("EndBlockAtt")})
+         [] Last.act = "Rereg" -> GResnap \/ GEndBlockAtt({NAct("EndBlockAtt")})
+         [] Last.act = "Resnap" -> GEndBlockAtt({NAct("EndBlockAtt")})
+         [] Last.act = "EndBlockAtt" ->
+               \/ (NAct("EndBlockAtt") < 3 /\ nextId - 1 \in Ids(queue \cup queueH) /\ GAttestN(LastMsg, {EstN}))
+               \/ GQuery1
+         [] OTHER -> FALSE
+
+\* ---- family "fees" ------------------------------------------------------------------------------
+GNextFees ==
+  CASE Last.act = "Query" -> FALSE
+    [] Last.act = "EndBlock" -> GQuery1
+    [] NAct("PutX") = 2 -> \E w \in {1} : EndBlock /\ H("EndBlock", [w |-> w])
+    [] OTHER ->
+         \/ (NAct("PutX") = 0 /\ \E c \in Chains, f \in FeeLevels \ {BaseFee} :
+                /\ ~\E i \in DOMAIN hist : hist[i].act = "SetFee" /\ (hist[i].args.c = c \/ (c = "t" /\ hist[i].args.c = "h"))
+                /\ SetFee(1, c, f) /\ H("SetFee", [v |-> 1, c |-> c, f |-> f]))
+         \/ \E c \in Chains, a \in {1, 2}, g \in Gases :
+                /\ LET r == PutXSt(c, "slc", 1, a, "ready", "none", g) IN queue' = r.qt /\ queueH' = r.qh
+                /\ nextId' = nextId + 1 /\ res' = "put"
+                /\ UNCHANGED <<tabs, nrows>>
+                /\ H("PutX", [c |-> c, kind |-> "slc", s |-> 1, a |-> a, stage |-> "ready", proc |-> "none", g |-> g, n |-> EstN])
 
 NMsgs == NAct("PutX") + NAct("Put") + NAct("Assign")
 GNext ==
@@ -112,18 +185,22 @@ GNext ==
               \/ (NAct("Assign") = Len(Sched) /\ GQuery1)
     [] Family = "gate" ->
          IF Last.act = "Query" THEN FALSE
-         ELSE \/ (NMsgs < GateMsgs /\ (GPutX({1, 2}) \/ GAssign({"t"}, Senders, {FALSE}, {0, 1})))
+         ELSE \/ (NMsgs < GateMsgs /\ (GPutX({"t"}, {1, 2}, GenStage, GenProc, Gases) \/ GAssign({"t"}, Senders, {FALSE}, {0, 1})))
               \/ (NMsgs > 0 /\ GQuery1)
+    [] Family = "retry" -> GNextRetry
+    [] Family = "fees" -> GNextFees
     [] OTHER ->
          IF hist = <<>> THEN GSetupRandom \/ GResnap
          ELSE \/ GRereg({1, 2}) \/ GResnap
               \/ GAssign(Chains, Senders, BOOLEAN, Times)
-              \/ GPut({1, 2}) \/ GPutX({1, 2})
+              \/ GPut(Chains, {1, 2}) \/ GPutX(Chains, {1, 2}, GenStage, GenProc, {MinOf(Gases)})
+              \/ GSetFee({1, 2}, FeeLevels)
+              \/ GAttestN(1..nextId, {EstN - 1, EstN}) \/ GEndBlockAtt({0, 1, 2})
               \/ GEstimateN \/ GEndBlock \/ GDeliver \/ GFail \/ GQuery
 
 GInit == Init /\ hist = <<>>
 \* real assignments are kept apart from messages put with the same content
-GView == <<Last, res, cur, snap, fee, perf, queue, queueH, nextId, {i \in DOMAIN hist : hist[i].act = "Assign"}>>
+GView == <<Last, res, cur, snap, fee, feeH, perf, queue, queueH, nextId, {i \in DOMAIN hist : hist[i].act = "Assign"}>>
 GConstr == Len(hist) <= MaxOps /\ Cardinality(queue) <= MaxQ /\ Cardinality(queueH) <= MaxQ
 \* cover mode: emit from the dequeued state (once per distinct state), complete histories only
 GNextC == (IF Last.act = "Query" THEN PrintT(<<"HIST", ToJson(hist)>>) ELSE TRUE) /\ GNext
